@@ -13,6 +13,17 @@ class FakeSock:
     def __init__(self):
         self.inb = []; self.eof = False; self.err = False; self.out = bytearray(); self.closed = False
         self.nwrites = 0; self.wfail = None
+        self.seg = None; self.seg_i = 0          # e2e: sizes of the successive reads (cyclic); None = one read per server message
+    def next_read(self):
+        """the octets of one read: the stream available now, re-cut by self.seg (tools/harness/e2e_check.py)"""
+        d = self.inb.pop(0)
+        if self.seg:
+            n = max(1, self.seg[self.seg_i % len(self.seg)]); self.seg_i += 1
+            while len(d) < n and self.inb:
+                d += self.inb.pop(0)
+            if len(d) > n:
+                self.inb.insert(0, d[n:]); d = d[:n]
+        return d
     def readable(self):
         return (bool(self.inb) or self.eof or self.err) and not self.closed
 
@@ -124,7 +135,7 @@ def make_session_class():
             self._S.point('read')
             s = self._sock
             if s.inb:
-                d = s.inb.pop(0); self._S.effect('read', 'data'); return d
+                d = s.next_read(); self._S.effect('read', 'data', bytes(d)); return d
             if s.err:
                 self._S.effect('read', 'err'); raise OSError('connection reset (injected)')
             self._S.effect('read', 'eof'); return b''
@@ -184,6 +195,7 @@ class Scenario:
         sock = FakeSock()
         if spec.get('wfail') is not None:
             sock.wfail = tuple(spec['wfail'])
+        sock.seg = spec.get('seg')
         ses = make_session_class()(dh, sock)
         base11 = bool(spec.get('base11'))
         if base11:
@@ -416,6 +428,8 @@ class Scenario:
                 labels.append([10, idn(e[2])])
             elif k == 'read' and e[2] == 'eof':
                 labels.append([11])
+            elif k == 'read' and e[2] == 'data' and getattr(self, 'keep_reads', False):
+                labels.append([30, e[3]])            # e2e: the octets of the read (not an LTS label)
             elif k == 'read' and e[2] == 'err':
                 labels.append([12])
             elif k == 'wfail':
